@@ -77,7 +77,7 @@ def describe(tier):
                 "sex x reference sex x X bins {40,41,64,100,250,400} x Y bins {0,3,10,40} x sd {0.01,0.05,0.1,0.2,0.3} x weights {none,const,saw-tooth} x naming x autosome bins {200,1000,3000} "
                 "x 12 noise arrangements; female Y level {-4,-8,-20}; PAR genome with 10 PAR-X bins"
                 if t
-                else "sex x reference sex x X bins {40,100,400} x Y bins {0,10,40} x sd {0.01,0.1,0.3} x weights {none,saw-tooth} x naming x autosome bins {200,1000} x 3 noise arrangements; "
+                else "sex x reference sex x X bins {40,100,400} x Y bins {0,10,40} x sd {0.01,0.1,0.3} x weights {none,saw-tooth} x naming x autosome bins {200,1000} x 6 noise arrangements; "
                 "PAR genome with 10 PAR-X bins on a sub-grid"
             ),
             "cli": "sex [-y] on 16 written samples; call --center {median,mean,biweight,mode} [--drop-low-coverage] [--diploid-parx-genome] -m none on 6 written tables",
@@ -93,7 +93,7 @@ def describe(tier):
             + ", b = floor(n*k/7)",
         },
         "assumptions": [
-            "the sex-inference half is claimed only over the deterministic noise alphabet (evenly spread subsamples of the normal quantile grid; |median(X noise) - median(autosome noise)| <= 1.3 sd/sqrt(n_X) on all of it), not for every noise realisation",
+            "the sex-inference half is claimed only over the deterministic noise alphabet (evenly spread subsamples of the normal quantile grid; |median(X noise) - median(autosome noise)| <= 1.5 sd/sqrt(n_X) on all of it, asserted in selftest/centering.py), not for every noise realisation",
             "null-coverage bin = log2 -20 (and depth 0 when a depth column exists); bins with depth 0 but ordinary log2, and log2 between -15 and -3, are not enumerated (the statement does not fix the threshold)",
             "tables without any autosome-named bin: the statement does not single out a reading; accepted = unchanged, or the estimator of all bins (of the PAR-X bins, with a genome) zeroed; always: uniform shift",
             "tables where skip_low removes every autosome-named bin: only the uniform-shift clause (DESIGN section 4 rule 2)",
@@ -215,7 +215,7 @@ def center_cases(tier):
                     yield {"check": "center", "family": "many-chromosomes", "style": style, "chroms": chroms, "pattern": "spread", "configs": "base"}
 
 
-SEX_PERMS_Q = [[0, 0], [1, 3], [2, 5]]
+SEX_PERMS_Q = [[0, 0], [1, 3], [2, 5], [3, 1], [4, 4], [5, 2]]
 SEX_PERMS_T = [[r, b] for r in range(6) for b in (0, 3)]
 
 
